@@ -111,14 +111,15 @@ class Ctx:
         s['cfg'] = cfg
         self.tlc_runs.append(s)
         self.log('TLC %s %s/%s: %d generated, %d distinct, depth %d, %d printed, %.1fs%s' % (
-            leg, module, cfg, res.generated, res.distinct, res.depth, len(res.printed), res.wall,
+            leg, module, cfg, res.generated, res.distinct, res.depth, res.nprinted, res.wall,
             (' VIOLATED ' + ','.join(res.violated)) if res.violated else ''))
         for a in must_cover:
             if res.coverage.get(a, (0, 0))[1] == 0:
                 raise MachineryError('vacuity: action %s of %s/%s was never taken (coverage %s)' % (
                     a, module, cfg, res.coverage))
         if expect_violation is not None:
-            if expect_violation not in res.violated:
+            exp = (expect_violation,) if isinstance(expect_violation, str) else tuple(expect_violation)
+            if not any(x in res.violated for x in exp):
                 raise MachineryError('non-vacuity run %s/%s: expected TLC to violate %s, got %s' % (
                     module, cfg, expect_violation, res.violated))
         return res
